@@ -58,25 +58,25 @@ def r10_call(w, proc, inst):
     """R10 at a call site: `process_references::<Proc, ..>(` -> `process_references_<inst>(` and thread the World."""
     from weave import lexer
     hits = [h for h in re.finditer(r"process_references::<\s*%s\b" % re.escape(proc), w.mbody)]
-    if len(hits) != 1:
-        raise LostAnchor("call of process_references::<%s..> in %s: %d matches" % (proc, w.qual(), len(hits)))
-    h = hits[0]
-    i = w.mbody.index("<", h.start())
-    depth = 0
-    while True:
-        ch = w.mbody[i]
-        if ch == "<":
-            depth += 1
-        elif ch == ">":
-            depth -= 1
-            if depth == 0:
-                break
-        i += 1
-    po = w.mbody.index("(", i)
-    pc = lexer.match_close(w.body, po)
-    w.replace(h.start(), po, "process_references_%s" % inst, "R10", "call of the monomorphised copy for %s" % proc)
-    inner = w.body[po + 1:pc]
-    w.insert_at(pc, (" " if inner.rstrip().endswith(",") else ", ") + rules.WORLD_ARG, "R8", "World arg")
+    if len(hits) < 1:
+        raise LostAnchor("call of process_references::<%s..> in %s: no match" % (proc, w.qual()))
+    for h in hits:
+        i = w.mbody.index("<", h.start())
+        depth = 0
+        while True:
+            ch = w.mbody[i]
+            if ch == "<":
+                depth += 1
+            elif ch == ">":
+                depth -= 1
+                if depth == 0:
+                    break
+            i += 1
+        po = w.mbody.index("(", i)
+        pc = lexer.match_close(w.body, po)
+        w.replace(h.start(), po, "process_references_%s" % inst, "R10", "call of the monomorphised copy for %s" % proc)
+        inner = w.body[po + 1:pc]
+        w.insert_at(pc, (" " if inner.rstrip().endswith(",") else ", ") + rules.WORLD_ARG, "R8", "World arg")
 
 
 def count_driver(u):
@@ -89,7 +89,7 @@ def count_driver(u):
     ]
     post = [
         ("C04.frame", "final(w).fs == old(w).fs && same_but_fs(World { log: final(w).log, stop_seen: final(w).stop_seen, ..*old(w) }, *final(w))"),
-        ("C18.check", "res.is_none() ==> final(w).stop_seen"),
+        ("C18.check,C05.verdict,C17.skip", "res.is_none() ==> final(w).stop_seen"),
         ("C18.check", "final(w).stop_seen ==> old(w).stop_seen || res.is_none()"),
         ("C05.verdict", "res.is_some() ==> res.unwrap() as int == tree_missing(old(w).files, old(w).fs, CFG, old(w).files.len() as int)"),
     ]
@@ -126,7 +126,7 @@ def nextid_driver(u):
     tx = "tree_max(old(w).files, old(w).fs, CFG, old(w).files.len() as int)"
     post = [
         ("C04.frame", "final(w).fs == old(w).fs && same_but_fs(World { log: final(w).log, stop_seen: final(w).stop_seen, ..*old(w) }, *final(w))"),
-        ("C18.edit", "res.is_none() ==> final(w).stop_seen"),
+        ("C18.edit,C08.fail,C17.skip", "res.is_none() ==> final(w).stop_seen"),
         ("C05.same", "res.is_some() ==> res.unwrap().1 as int == %s" % tm),
         # the first new ID is 1 on a tree without IDs, else greater than every existing one (u32::MAX is never handed out)
         ("C01.next", "res.is_some() ==> res.unwrap().0 >= 1 && (res.unwrap().0 as int > %s || res.unwrap().0 == u32::MAX)" % tx),
@@ -168,7 +168,7 @@ def insert_driver(u):
         ("C07.frame", "atomic_inv(*final(w))"),
         ("C01.unique", "alloc_inv(*final(w), CFG, old(w).counter)"),
         ("C01.nowrap", "old(w).counter <= final(w).counter <= u32::MAX"),
-        ("C18.edit", "res.is_none() ==> final(w).stop_seen"),
+        ("C18.edit,C08.fail,C17.skip", "res.is_none() ==> final(w).stop_seen"),
         ("C08.fail", "res.is_some() && !res.unwrap().failure ==> all_edited(*final(w), CFG, final(w).files.len() as int)"),
         ("C05.count", "res.is_some() && !res.unwrap().failure ==> res.unwrap().num_inserted_references as int == tree_missing(old(w).files, old(w).orig, CFG, old(w).files.len() as int)"),
         ("C06.noop", "tree_missing(old(w).files, old(w).orig, CFG, old(w).files.len() as int) == 0 ==> final(w).fs == old(w).fs && final(w).counter == old(w).counter"),
@@ -240,7 +240,8 @@ def check_references(u):
     ]
     tm = "tree_missing(final(w).files, old(w).fs, context.config, final(w).files.len() as int)"
     f.ensures += [
-        ("C04.frame", "final(w).fs == old(w).fs"),
+        ("C04.frame", "final(w).fs == old(w).fs && final(w).orig == old(w).orig && final(w).check_mode == old(w).check_mode && final(w).handlers == old(w).handlers"
+         " && final(w).intended == old(w).intended && final(w).alloc == old(w).alloc"),
         # exact verdict: success iff at least one file was found, the pass was not interrupted, and nothing lacks a reference
         ("C05.verdict,C16.errors", "res.is_ok() ==> final(w).files.len() > 0 && %s == 0" % tm),
         ("C18.check", "res.is_ok() ==> !final(w).stop_seen || old(w).stop_seen"),
@@ -259,11 +260,13 @@ def generate_code(u):
     # R9: the run's counter is created once; its load is the mathematical value
     for h in re.finditer(r"let\s+(\w+)\s*=\s*Arc::new\(\s*AtomicU32::new\(\s*(\w+)\s*\)\s*\)\s*;", f.mbody):
         f.insert_at(h.end(), " proof { axiom_counter_new(w, %s); }" % h.group(2), "R9", "counter creation axiom")
-    for h in re.finditer(r"(\w+)\s*\.load\(\s*std::sync::atomic::Ordering::Relaxed\s*\)", f.mbody):
-        # occurrences inside log statements disappear with R1; the remaining ones read the counter
-        inside_log = any(ed.s <= h.start() < ed.e for ed in f.edits)
-        if not inside_log:
-            f.replace(h.start(), h.end(), "counter_load(&%s, Tracked(w))" % h.group(1), "R9", "counter load via sequential-counter shim")
+    counters = [h.group(1) for h in re.finditer(r"let\s+(\w+)\s*=\s*Arc::new\(\s*AtomicU32::new\(", f.mbody)]
+    for cv in counters:
+        for h in re.finditer(r"\b%s\s*\.load\(\s*(?:std::sync::atomic::|atomic::)?Ordering::Relaxed\s*\)" % re.escape(cv), f.mbody):
+            # occurrences inside log statements disappear with R1; the remaining ones read the counter
+            if not any(ed.s <= h.start() < ed.e for ed in f.edits):
+                f.replace(h.start(), h.end(), "counter_load(&%s, Tracked(w))" % cv, "R9", "counter load via sequential-counter shim")
+    rules.r9_stop_poll(f, ["context.stop_commanded"])
     cfg = "context.config"
     tmiss = "tree_missing(final(w).files, old(w).fs, %s, final(w).files.len() as int)" % cfg
     tmax = "tree_max(final(w).files, old(w).fs, %s, final(w).files.len() as int)" % cfg
@@ -272,6 +275,7 @@ def generate_code(u):
         "old(w).fs == old(w).orig", "old(w).intended == Map::<Seq<char>, Seq<u8>>::empty()", "old(w).alloc == Map::<Seq<char>, int>::empty()",
         "old(w).protected == Set::<Seq<char>>::empty()", "old(w).files == Seq::<Seq<char>>::empty()",
         "!is_temp(lock_path())",
+        "context.config.config_dir@ == config_dir()",
         # assumption: a lock value, when present, was written by Breadlog (first ID is 1)
         "context.cached_next_reference_id.is_some() ==> context.cached_next_reference_id.unwrap() >= 1",
     ]
@@ -311,6 +315,13 @@ def build():
     u.include("shims/io.rs")
     config_types(u)
     u.include("shims/driver_stubs.rs")
+    # the lock writer's contract, exactly as proved in unit `context`
+    from . import u_context
+    tmp = Unit("tmp")
+    cw = u_context.cache_writer(tmp)
+    u.raw("verus! {\nimpl Context {\n")
+    u.stub_of(cw, note="Context::cache_next_reference_id: contract proved in unit `context`")
+    u.raw("}\n}\n")
     u.include("spec/report.rs")
     common.entry_accessors(u, with_token=True)
     u.real_item(GEN, r"const START_REFERENCE_ID\b", lambda t: common.wrap(t))
